@@ -45,7 +45,8 @@ Not decided here (and why):
     particular summation order is not checked.
   * integer division: symbolic SAT dividers do not terminate (tried: every form timed out at 300 s) -- left out.
   * int64 multiply needs no 32-bit-half emulation in this code base (scalar loop or vpmullq), so ATOMS applies to it everywhere.
-  * complex SIMD vectors (split real/imaginary representation) are not covered by this generator.
+  * complex SIMD vectors (split real/imaginary representation): + - conj multiply divide rcp and the masked store are covered by
+    complex_arith_cases / complex_mask_store_case below; abs, arg, norm, reductions and mixed scalar forms are not.
   * SIMDVector<float|double,avx512>::minimum()/maximum() do not exist (C06 acceptance finding): no unit can be compiled.
   * set(n0,...,n_{N-1}) is specified in the Intel `_mm_set_*` argument order (last argument is lane 0), which is what every
     specialisation and the generic fallback document.
